@@ -10,6 +10,11 @@ CHECKS = {
    "Thousands of generated operation schedules over a two-node channel (all three channel types, generated reserve/dust/limit configurations, per-message delivery, disconnects, async persistence, fee updates); every counterparty commitment either node signs is compared field by field with a reference model written from BOLT-2/3 that consumes only the observed wire messages, conservation and peer agreement are checked on every signature, and any error, closure or broadcast in honest operation fails the case. Search, not proof.",
    "Trusts the harness's own reference model and the functional_test_utils test doubles (TestChainMonitor, TestKeysInterface); splicing, dual funding and quiescence are not generated.",
    "DESIGN.md §6 C01"),
+ "C20": ("vprop", "exploration",
+   "property-based testing over generated regtest block trees, scripted block sources with injected faults, against a reference chain cursor",
+   "Hundreds of thousands of generated block trees (valid regtest PoW, forks up to 20 deep, equal-work ties, branches with a bad-PoW block, trees deeper than the 1008-header cache) served by a scripted BlockSource with one injected fault per call (transient/persistent errors, bad-PoW or non-connecting or altered headers, foreign or tampered blocks); every Listen notification of SpvClient::poll_best_tip and synchronize_listeners is replayed against an independent cursor over the harness's own tree: disconnect names a true ancestor, connects are the cursor's children in ascending order, the tip only moves to strictly more work, faulted calls leave a prefix of the fault-free walk and the next fault-free poll produces exactly the missing suffix. Search, not proof.",
+   "The source's height/chainwork metadata is honest for valid connecting headers (a lying-metadata source is outside the property and kept as an opt-in part); REST/RPC clients are not exercised; regtest difficulty only.",
+   "DESIGN.md §6 C20"),
 }
 
 NOT_YET = {
